@@ -203,6 +203,20 @@ func TestC08(t *testing.T) {
 		c := c08Case{Pkgs: pkgs, Sources: src, Raw: raw, Via: "parser"}
 		if !useProbe {
 			p := proggen.Gen(rt, proggen.GenOpts{Focus: "all", MinPkgs: 1, MaxPkgs: 3, Rich: true})
+			// project-wide exclusion must not depend on the @ignore comments a package happens to contain
+			if nodes := p.Nodes(); len(nodes) > 0 && rapid.Bool().Draw(rt, "withIgnoreComments") {
+				for i, n := 0, rapid.IntRange(1, 2).Draw(rt, "nIgnore"); i < n; i++ {
+					nd := nodes[rapid.IntRange(0, len(nodes)-1).Draw(rt, "ignoreNode")]
+					cm := "// @ignore " + rapid.SampledFrom([]string{"IMM03", "CTOR", "TONL01, PKGO01", "ZZZ9", "IMPL"}).Draw(rt, "ignoreCodes")
+					if rapid.Bool().Draw(rt, "ignoreTrailing") {
+						nd.Node.Trailing = cm
+					} else {
+						nd.Node.Before = append(nd.Node.Before, cm)
+					}
+				}
+				p.Render()
+				ev.Class(id, "program contains @ignore comments")
+			}
 			c.Pkgs, c.Sources = pkgDirs(p), p.Sources()
 		}
 		if binN < binBudget && engine.BinPath() != "" && rapid.IntRange(0, 9).Draw(rt, "viaBinary") == 0 {
